@@ -5,5 +5,5 @@ set -e
 cd "$(dirname "$0")"
 export CARGO_NET_OFFLINE=true
 ./check C06 --only c06_u8_u16_ends --no-evidence >/dev/null 2>&1 || true
-if [ -d symx ]; then (cd symx && cargo build --release --offline >/dev/null 2>&1) || true; fi
+if [ -d symx ]; then (CARGO_TARGET_DIR="$PWD/.build/symx" cargo build --release --offline --manifest-path symx/Cargo.toml >/dev/null 2>&1) || true; fi
 echo setup done
